@@ -33,6 +33,9 @@ def cz(v, model, universe=None):
         return {"$path": r.as_string() if z3.is_string_value(r) else str(r)}
     if isinstance(v, VNone):
         return None
+    if type(v).__name__ == "VDyn":
+        from .dyn import concretize
+        return concretize(v, model)
     if isinstance(v, VNaN):
         return {"$float": "nan"}
     if isinstance(v, VUn):
